@@ -78,7 +78,24 @@ fn path_monitoring_reader(path: &str) -> Result<Vec<u8>, Box<dyn std::error::Err
             *g = Some(path.to_string());
         }
     }
-    Err("no files in this workload".into())
+    // a virtual file system with files in the second directory only, for every name of even length: the search
+    // must pass over the failing first directory whatever ambient state the calling thread carries
+    match path.strip_prefix("/tzmon-d2/") {
+        Some(name) if name.len() % 2 == 0 && !name.is_empty() => Ok(crate::mon::c20::valid_file(name.len() as i32 * 60)),
+        _ => Err("No such file or directory (virtual)".into()),
+    }
+}
+
+extern "C" {
+    fn __errno_location() -> *mut i32;
+}
+
+/// Overwrites the calling thread's `errno` (ambient thread-local state every failing system call writes): no
+/// result of tz-rs may depend on it.
+fn poison_errno(v: i32) {
+    unsafe {
+        *__errno_location() = v;
+    }
 }
 
 /// execute one sequence; the digest covers every result
@@ -99,6 +116,12 @@ pub fn execute(s: &Shared, ops: &[Op], yield_seed: Option<u64>) -> (u64, u64) {
             }
         }
         n += 1;
+        // ambient thread state differs between the reference run (errno 0) and the concurrent run (errno drawn
+        // from the values a permission / lookup failure leaves behind)
+        match yr.as_mut() {
+            Some(r) => poison_errno(*r.pick(&[1, 2, 13, 20, 22, 0, 4, 11])),
+            None => poison_errno(0),
+        }
         match op {
             Op::ParseFile(k) => match TimeZone::from_tz_data(&s.files[*k % s.files.len()]) {
                 Ok(z) => {
@@ -271,7 +294,7 @@ fn mark(begin: bool) {
 
 pub fn run(ctx: &Ctx) -> Report {
     let mut rep = Report::new("C15");
-    rep.rule = "cases = (operation sequence, thread count, schedule seed): sequences mixing parse (file and TZ string; injected reader and the default settings on the real file system: TimeZone::local, TimeZone::from_posix_tz), the clock readers (now, find_current_local_time_type), construct, lookup, from_timespec, find, find_n, format on shared zones (Arc<TimeZone> of vendored files and generated zones, a leaked &'static zone, the const UTC zone) and private values; each sequence's digest when run by one of N threads (N in 2, 4, 8, 16; start barrier; random yields / spins between calls) must equal its digest when run alone. \
+    rep.rule = "cases = (operation sequence, thread count, schedule seed): sequences mixing parse (file and TZ string; injected reader and the default settings on the real file system: TimeZone::local, TimeZone::from_posix_tz), the clock readers (now, find_current_local_time_type), construct, lookup, from_timespec, find, find_n, format on shared zones (Arc<TimeZone> of vendored files and generated zones, a leaked &'static zone, the const UTC zone) and private values; each sequence's digest when run by one of N threads (N in 2, 4, 8, 16; start barrier; random yields / spins between calls; the thread's errno overwritten with EPERM / ENOENT / EACCES / ... before every call) must equal its digest when run alone (errno 0). The injected reader serves a virtual file system with files in the second directory only and monitors the paths it is handed. \
                 distinct_nontrivial = distinct (sequence, thread count, round) executions whose sequence touches a shared zone."
         .into();
     rep.required_classes = vec!["threads_2", "threads_4", "threads_8", "threads_16", "shared_zone_ops", "private_value_ops", "parse_ops", "reader_saw_absolute_paths_only", "default_settings_ops_(real_file_system)", "clock_ops"];
